@@ -266,7 +266,8 @@ def bfs_solve(iname, mname, flux, rname, mspec, bc, idx, depth, cfls, res=None):
                 solver = cls(mesh, disc)
                 f = f0.copy()
                 ok = True
-                for c in prefix + (cfl,):
+                scale = scale0.copy()      # the largest magnitude the field has had along the path: a linearised implicit step at CFL 5 can
+                for c in prefix + (cfl,):  # multiply a Burgers field by 1e4 (no admissibility constraint); round-off is relative to that
                     with np.errstate(all="ignore"):
                         dt = float(np.min(disc.calc_timestep(f, c)))
                         if not np.isfinite(dt):
@@ -278,6 +279,7 @@ def bfs_solve(iname, mname, flux, rname, mspec, bc, idx, depth, cfls, res=None):
                     if not admissible(kind, f):
                         ok = False
                         break
+                    scale = np.maximum(scale, np.array([float(np.sum(vol * np.abs(d))) for d in f.data]))
                 if res is not None:
                     res.states.add(hash(tuple(x.tobytes() for x in f.data)))
                 if not ok:
@@ -289,7 +291,7 @@ def bfs_solve(iname, mname, flux, rname, mspec, bc, idx, depth, cfls, res=None):
                 I = integrals(f, vol)
                 steps = len(prefix) + 1
                 tol = (1e-6 * (1 + max(prefix + (cfl,))) if impl else 256 * steps * EPS)
-                err = np.abs(I - I0)[watch] / scale0[watch]
+                err = np.abs(I - I0)[watch] / scale[watch]
                 if res is not None:
                     res.evals += 1
                     res.worst("solve/%s" % ("implicit" if impl else "explicit"), err.max() / tol)
